@@ -294,11 +294,12 @@ SameSlot(s, t) == s.ok /\ t.ok /\ s.d = t.d /\ s.n = t.n
 ThroughNonDir(WW, d, p) == \E k \in 1..Len(p) : \E x \in Reach(WW, d, p, k) : x \notin DOMAIN WW.D
 WellFormed(q) == ~BadArgs(q)
 \* the writes below are made with write authority all the way (read-only caps are the subject of C41)
-Writeable(WW, q) ==
-  LET pp == ParentPath(q) IN
-  q.via = "rw" /\ \A k \in 0..Len(pp) :
-     \A x \in Reach(WW, q.d, pp, k) : x \in DOMAIN WW.D /\ x \notin WW.imm /\
+WriteableAt(WW, d, via, pp) ==
+  via = "rw" /\ \A k \in 0..Len(pp) :
+     \A x \in Reach(WW, d, pp, k) : x \in DOMAIN WW.D /\ x \notin WW.imm /\
         ((k < Len(pp) /\ Has(WW.D, x, Norm(pp[k + 1]))) => WW.D[x][Norm(pp[k + 1])].child.w)
+Writeable(WW, q) == WriteableAt(WW, q.d, q.via, ParentPath(q))
+DestWriteable(WW, q) == IF q.op = "rename" THEN Writeable(WW, q) ELSE WriteableAt(WW, q.to_d, q.to_via, q.to_path)
 \* the path does not walk over the link it is about to set (a directory reachable from itself): otherwise
 \* the URL names something else afterwards and the document's promises about "the same URL" are void
 Simple(WW, q) ==
@@ -393,7 +394,7 @@ WO_Intermediate(WW, WW2, q, r, now) ==
   /\ DOMAIN WW.D \subseteq DOMAIN WW2.D
   /\ (new # {} /\ q.op \notin UnlinkedOps) =>
         /\ q.op \in CreatingOps /\ IsSuccessCode(r.code)
-        /\ \A x \in new : \E k \in 1..Len(p) : x \in Reach(WW2, q.d, p, k) /\ (k = Len(p) \/ Reach(WW, q.d, p, k) = {})
+        /\ Simple(WW, q) => \A x \in new : \E k \in 1..Len(p) : x \in Reach(WW2, q.d, p, k) /\ (k = Len(p) \/ Reach(WW, q.d, p, k) = {})
   /\ (q.op \in CreatingOps /\ IsSuccessCode(r.code) /\ Simple(WW, q)) =>
         \A k \in 1..(Len(p) - 1) :
            LET before == Reach(WW, q.d, p, k) IN
@@ -419,7 +420,7 @@ DeleteOps == {"delete", "post_delete"}
 WO_Delete(WW, WW2, q, r, now) ==
   (q.op \in DeleteOps /\ WellFormed(q)) =>
      LET s == Slot(WW, q) IN
-     /\ (s.ok /\ ~s.present) => r.code = 404
+     /\ (s.ok /\ ~s.present /\ Writeable(WW, q)) => r.code = 404
      /\ (~s.ok /\ ~ThroughNonDir(WW, q.d, ParentPath(q))) => r.code = 404
      /\ IsSuccessCode(r.code) => /\ s.present /\ ~Has(WW2.D, s.d, s.n)
                                  /\ (q.op = "delete") => r.out.id = s.child.id /\ r.out.type = s.child.type
@@ -431,7 +432,7 @@ WO_Move(WW, WW2, q, r, now) ==
   (q.op \in MoveOps /\ WellFormed(q)) =>
      LET s == Slot(WW, q)  t == Dest(WW, q)  same == SameSlot(s, t) IN
      /\ same => WW2 = WW
-     /\ (s.ok /\ t.ok /\ ~s.present /\ ~same) => r.code = 404
+     /\ (s.ok /\ t.ok /\ ~s.present /\ ~same /\ Writeable(WW, q) /\ DestWriteable(WW, q)) => r.code = 404
      /\ ((~s.ok /\ ~ThroughNonDir(WW, q.d, q.path)) \/ (s.ok /\ q.op = "relink" /\ ~t.ok /\ ~ThroughNonDir(WW, q.to_d, q.to_path))) => r.code = 404
      /\ (q.op = "relink" /\ (ThroughNonDir(WW, q.d, q.path) \/ (s.ok /\ ThroughNonDir(WW, q.to_d, q.to_path)))) => r.code = 400
      /\ (IsSuccessCode(r.code) /\ ~same) =>
